@@ -60,11 +60,14 @@ def template_branch(ctx) -> list:
     return arms["T"]
 
 
-def resolve_name(stmts_before: list, name: str):
-    """latest plain assignment to `name` among the given statements (in order)"""
-    val = None
+def resolve_name(stmts_before: list, name: str, before_line: int = 10**9):
+    """the plain assignment to `name` with the greatest line number below `before_line`
+    among the given statements"""
+    best = None
     for st in stmts_before:
         for n in ast.walk(st):
-            if isinstance(n, ast.Assign) and len(n.targets) == 1 and isinstance(n.targets[0], ast.Name) and n.targets[0].id == name:
-                val = n.value
-    return val
+            if isinstance(n, ast.Assign) and len(n.targets) == 1 and isinstance(n.targets[0], ast.Name) and n.targets[0].id == name \
+                    and n.lineno < before_line:
+                if best is None or n.lineno > best.lineno:
+                    best = n
+    return best.value if best is not None else None
